@@ -204,8 +204,8 @@ class State:
         return v
 
     def sig(self):
-        return (self.dead, repr(self.retval), tuple(sorted(map(repr, self.facts))), repr(sorted((k, repr(v)) for k, v in self.env.items())),
-                repr(sorted((k, _obj_sig(o)) for k, o in self.heap.items())))
+        return (self.dead, vkey(self.retval), frozenset(self.facts), tuple(sorted((k, vkey(v)) for k, v in self.env.items())),
+                tuple(sorted((k, _obj_sig(o)) for k, o in self.heap.items())))
 
     def adopt(self, other):
         self.env = other.env
@@ -218,8 +218,53 @@ class State:
         self.retval = other.retval
 
 
+def vkey(v):
+    """hashable structural key of an abstract value (no string formatting)"""
+    if v is None:
+        return None
+    t = type(v).__name__
+    if t == "IntV":
+        return ("i", v.lin)
+    if t == "BytesV":
+        return ("b", _tkey(v.term), v.length)
+    if t == "ConstV":
+        try:
+            hash(v.value)
+            return ("c", type(v.value).__name__, v.value)
+        except TypeError:
+            return ("c", repr(v.value))
+    if t == "Ref":
+        return ("r", v.oid)
+    if t == "MatchV":
+        return ("m", v.mid, v.maybe_none)
+    if t == "TupleV":
+        return ("t",) + tuple(vkey(x) for x in v.items)
+    if t == "GuardedInt":
+        return ("g", v.lin)
+    if t == "StrV":
+        return ("s", _tkey(v.term))
+    if t == "FuncV":
+        return ("f", id(v.fi))
+    return (t,)
+
+
+def _tkey(t):
+    if isinstance(t, tuple):
+        return tuple(_tkey(x) for x in t)
+    if isinstance(t, (str, bytes, int, Lin)) or t is None:
+        return t
+    return repr(t)
+
+
 def _obj_sig(o):
-    return repr({k: (v if k not in ("site", "sigs", "subject") else None) for k, v in o.items()})
+    k = o["kind"]
+    if k == "node":
+        return ("node", tuple(sorted((f, vkey(v)) for f, v in o["fields"].items())))
+    if k == "list":
+        return ("list", tuple(vkey(x) for x in o["items"]), vkey(o.get("elem")), o.get("length"), o.get("iter"), bool(o.get("summary")))
+    if k == "obj":
+        return ("obj", o.get("cls"), tuple(sorted((f, vkey(v)) for f, v in o["attrs"].items())))
+    return (k, len(o.get("values") or ()))
 
 
 def dedupe(states):
